@@ -1219,6 +1219,14 @@ impl<'a> GeneratorState<'a> {
     }
 
     pub fn generate_statement(&mut self, code: &'a StatementLoc<'a>) -> Result<(), Error> {
+        // First statement of a function: nothing is known about the flags on entry (what the
+        // previous function left in them is of no use here)
+        if let Some(f) = &self.current_function {
+            if self.functions_code.get(f).is_some_and(|c| c.is_empty()) {
+                self.flags = FlagsState::Unknown;
+                self.carry_flag_ok = false;
+            }
+        }
         // Include C source code into generated asm
         // debug!("{:?}, {}, {}, {}", expr, pos, self.last_included_position, self.last_included_line_number);
         if self.insert_code {
